@@ -13,6 +13,7 @@ import (
 func (x *Exec) resync() {
 	x.St.inc("unjudged-abort")
 	x.stop = true
+	x.Aborted = true
 }
 
 // libListing renders the library's own view of client c's allocation.
